@@ -23,7 +23,7 @@ EXHAUSTIVE_SUBDOMAINS = ["DF 0..31 x TC 0..31 x subtype 0..7 x {zero, ones, rand
 ASSUMPTIONS = ["shape predicates and guard domains are transcribed from the docstrings / error messages of the functions",
                "low-level helpers without a documented domain (e.g. *_with_ref, oe_flag, commb field decoders) are judged for "
                "exception type and shape only"]
-REQUIRED = ["long_frames", "short_frames", "tell", "routing", "guards", "matrix_df17", "matrix_other_df"]
+REQUIRED = ["reference_aimed_at_solution_midpoints", "long_frames", "short_frames", "tell", "routing", "guards", "matrix_df17", "matrix_other_df"]
 
 # functions that are known to raise ValueError/IndexError on 14-digit frames (empty MB/ME slice); see KNOWN_FINDINGS
 SHORT_FRAME_FUNCS = None  # filled lazily: every commb/adsb function that slices bits beyond 56
@@ -303,10 +303,81 @@ def m_frames(ctx, case):
         ctx.sample({"frame": hx, "df": f["df"], "tc": f["tc"], "functions_called": len(_S) + 5})
 
 
-MONITORS = {"frames": m_frames}
+def m_aimed(ctx, case):
+    """position functions with a reference AIMED at the spots where a nearest-solution choice is a tie or a hair from one:
+    the reference exactly 45 / 135 degrees of longitude (surface: midpoint between two of the four solutions), 45 degrees
+    of latitude, half a zone, or nothing at all away from the decoded position, each +- a few ulps.  Whatever the answer is
+    there, it is a (lat, lon) pair, None or RuntimeError - never StopIteration / IndexError / ZeroDivisionError."""
+    import math
+    from pyModeS import adsb
+    from ..ref import cpr
+    rng = ctx.rng
+    for _ in range(case["n"]):
+        sfc = rng.random() < 0.6
+        lat, lon = rng.uniform(-80, 80), rng.uniform(-180, 180)
+        fr = []
+        for i in (0, 1):
+            yz, xz = cpr.encode(lat, lon, i, sfc)[:2]
+            me = cpr.me_surface(rng.choice((5, 6, 7, 8)), rng.randrange(128), 1, rng.randrange(128), 0, i, yz, xz) if sfc else \
+                cpr.me_airborne(rng.choice((9, 11, 18, 20)), 0, 0, rng.fill(12), 0, i, yz, xz)
+            fr.append("%028X" % bits.es_frame(17, 5, 0x4840D6, me))
+        # aim with the library's own answer (steering only): where it puts this aircraft for a receiver next to it
+        base = call(adsb.position, fr[0], fr[1], 1, 2, lat, lon)
+        if base[0] != "ok" or base[1] is None:
+            continue
+        la0, lo0 = base[1]
+        for dla, dlo in ((0, 45), (0, -45), (0, 135), (0, -135), (0, 90), (0, 180), (45, 0), (-45, 0), (0, 0), (45, 45), (0, 22.5), (0.75, 0), (-0.75, 0)):
+            for ulps in (0, 1, -1, 2, -2):
+                rla = min(90.0, max(-90.0, la0 + dla))
+                rlo = lo0 + dlo
+                rlo = rlo - 360.0 if rlo >= 180.0 else rlo + 360.0 if rlo < -180.0 else rlo
+                for _u in range(abs(ulps)):
+                    rlo = math.nextafter(rlo, math.inf if ulps > 0 else -math.inf)
+                    if dla:
+                        rla = min(90.0, max(-90.0, math.nextafter(rla, math.inf if ulps > 0 else -math.inf)))
+                calls = [("adsb.position", adsb.position, (fr[0], fr[1], 1, 2, rla, rlo)), ("adsb.position", adsb.position, (fr[0], fr[1], 2, 1, rla, rlo)),
+                         ("adsb.position_with_ref", adsb.position_with_ref, (fr[rng.randrange(2)], rla, rlo))]
+                if sfc:
+                    calls.append(("adsb.surface_position", adsb.surface_position, (fr[0], fr[1], 1, 2, rla, rlo)))
+                for nm, fn, a in calls:
+                    r = call(fn, *a)
+                    ctx.ev()
+                    if r[0] == "exc" and r[1] != "RuntimeError":
+                        ctx.violation("non-RuntimeError-escapes:%s:%s" % (nm, r[1]), frame=a[0], api=nm, args=repr(a[1:]), observed=r[1:],
+                                      note="reference aimed %s deg lat / %s deg lon %+d ulp from the decoded position" % (dla, dlo, ulps))
+                    elif r[0] == "ok" and not (r[1] is None or (isinstance(r[1], tuple) and len(r[1]) == 2)):
+                        ctx.violation("undocumented-shape:%s" % nm, frame=a[0], api=nm, observed=repr(r[1])[:120])
+        if sfc:
+            # ... and a hair INSIDE the midpoint the choice is not a tie: the receiver 45 - h degrees (longitude or latitude) away
+            # from where the aircraft was put still gets the same answer as the receiver next to it
+            for h in (1e-9, 1e-6, 1e-3):
+                for sg in (1, -1):
+                    for rla, rlo in ((la0, lo0 + sg * (45.0 - h)), (la0 + sg * (45.0 - h), lo0)):
+                        if not -90.0 <= rla <= 90.0:
+                            continue
+                        if rla != la0 and h < 1e-3:
+                            continue     # latitude: the even and the odd frame quantise to latitudes up to 1e-5 deg apart, each is
+                            #              matched to the receiver on its own - only a hair larger than that is the same for both
+                        rlo = rlo - 360.0 if rlo >= 180.0 else rlo + 360.0 if rlo < -180.0 else rlo
+                        r = call(adsb.position, fr[0], fr[1], 1, 2, rla, rlo)
+                        ctx.ev()
+                        if r != base:
+                            ctx.violation("surface-solution-changes-a-hair-inside-the-midpoint", frames=fr, receiver_next_to_it=[lat, lon], answer=base[1:],
+                                          receiver=[rla, rlo], hair=h, observed=r[1:])
+            ctx.hit("reference_a_hair_inside_solution_midpoint")
+        ctx.hit("reference_aimed_at_solution_midpoints")
+        ctx.nontrivial(("aim", fr[0], fr[1]))
+
+
+MONITORS = {"frames": m_frames, "aimed": m_aimed}
 
 
 def cases(ctx):
+    yield "aimed", {"n": 6 if ctx.tier == "quick" else 120}
+    yield from _cases(ctx)
+
+
+def _cases(ctx):
     rng = ctx.rng
     quick = ctx.tier == "quick"
     i = 0
